@@ -18,7 +18,7 @@ from sshuttle.methods import BaseMethod
 
 _pf_context = {
     'started_by_sshuttle': 0,
-    'loaded_by_sshuttle': True,
+    'loaded_by_sshuttle': False,
     'Xtoken': []
 }
 _pf_fd = None
